@@ -43,7 +43,8 @@ def mint_h(name, bounds, **kw):
     kw.setdefault('models', MINT_MODELS)
     return Harness(name, 'mint', MINT_FILES, bounds=bounds, **kw)
 
-STORAGE_LISTS = Harness('VHarnessStorageLists', 'mint/storage/sqlite', ['mint/storage/sqlite/zz_verif_db.go'], models=('std', 'crypto', 'json', 'sql'), summaries=('h2c',), crypto_mode='euf', bounds='GetProofsUsed / GetPendingProofs / GetBlindSignatures with a list of 1, 2 or 1001 distinct keys over 1+1+1 arbitrary rows (the stored key may equal any position of the list)', must_reach=('looked-up', 'long-list'))
+STORAGE_LISTS = Harness('VHarnessStorageLists', 'mint/storage/sqlite', ['mint/storage/sqlite/zz_verif_db.go'], models=('std', 'crypto', 'json', 'sql'), summaries=('h2c',), crypto_mode='euf', bounds='GetProofsUsed / GetPendingProofs / GetBlindSignatures with a list of 1, 1000 or 1001 distinct keys over 1+1+1 arbitrary rows (the stored key may equal any position of the list)', must_reach=('looked-up', 'long-list'))
+SWAP_FAULT = mint_h('VHarnessSwapC01Fault', 'swap: 1 input, 1 output, every field free; 1 proof + 1 pending + 1 blind_signatures arbitrary rows; a storage error injected at any one storage call of the swap (position symbolic): an accepted swap still never takes a spent or locked input', sched=True, must_reach=('swap-accepted', 'swap-rejected', 'struck'))
 RACE_MELT_MELT = mint_h('VHarnessRaceMeltMelt', '2 concurrent melts (different quotes) of the same genuine proof, schedule symbolic at storage / Lightning call granularity, <= 2 pre-emptions, backend answers scripted symbolically', sched=True, must_reach=('joined', 'one-honoured'))
 def c01(tier):
     wide = [mint_h('VHarnessSwapC01Wide', 'swap: <= 2 inputs, <= 2 outputs, every field free; 2 proofs + 2 pending + 2 blind_signatures arbitrary rows', must_reach=('swap-accepted', 'swap-rejected'), timeout_s=3000),
@@ -52,7 +53,8 @@ def c01(tier):
     return wide + [
         mint_h('VHarnessRaceSwapSwap', '2 concurrent swaps of the same genuine proof, schedule symbolic at storage-call granularity, <= 2 pre-emptions', sched=True, must_reach=('joined', 'one-honoured')),
         mint_h('VHarnessRaceSwapMelt', 'swap and melt of the same genuine proof concurrently, schedule symbolic, <= 2 pre-emptions', sched=True, must_reach=('joined', 'one-honoured')),
-        RACE_MELT_MELT, STORAGE_LISTS,mint_h('VHarnessSwapC01', 'swap: <= 2 inputs, <= 1 output, every field free; 2 proofs + 1 pending + 1 blind_signatures arbitrary rows',
+        RACE_MELT_MELT, STORAGE_LISTS,
+        SWAP_FAULT,mint_h('VHarnessSwapC01', 'swap: <= 2 inputs, <= 1 output, every field free; 2 proofs + 1 pending + 1 blind_signatures arbitrary rows',
                    must_reach=('swap-accepted', 'swap-rejected')),
         mint_h('VHarnessMeltC05', 'melt + 1 poll with a scripted backend (<= 3 answers): the inputs of a melt whose payment may still settle stay locked - released only after a definitive failure (else they could be spent a second time)', must_reach=('poll-1',))]
 
@@ -83,6 +85,7 @@ def c15(tier):
     return wide + [
         mint_h('VHarnessQueryC15', 'checkstate / restore: 0..2 arbitrary entries; 2 spent + 1 pending + 2 signature arbitrary rows', must_reach=('checkstate-ok', 'restore-ok')),
         mint_h('VHarnessFaultQueryC15', 'restore / checkstate of 1..2 arbitrary entries over 1 spent + 2 signature arbitrary rows with a storage error injected at any one storage call (position symbolic)', sched=True, must_reach=('restore-struck', 'restore-answered', 'checkstate-struck', 'checkstate-answered')),
+        STORAGE_LISTS,
         mint_h('VHarnessSwapC15', 'swap then checkstate + restore: <= 2 inputs, <= 2 outputs', must_reach=('swap-accepted',)),
         mint_h('VHarnessMeltC05', 'melt of 1 input carrying an arbitrary witness + 1 poll (quote state or checkstate) with a scripted backend (<= 3 answers), then a final state check: state and witness reported for every path the input took', must_reach=('poll-1',)),
     ]
@@ -106,6 +109,7 @@ def c07(tier):
 def c05(tier):
     hs = [mint_h('VHarnessMeltC05', 'melt + 1 poll: 1 genuine input, quote amount/reserve/MPP symbolic, backend script <= 3 answers (status symbolic, error kind enumerated), poll through quote state or checkstate', must_reach=('poll-1',))]
     hs.append(RACE_MELT_MELT)
+    hs.append(SWAP_FAULT)
     if tier == 'thorough':
         hs.append(mint_h('VHarnessMeltC05Polls', 'melt + 2 polls: backend script <= 4 answers', must_reach=('poll-2',), timeout_s=1800))
     return hs
